@@ -39,6 +39,7 @@ struct Gen {
         else if (u < 0.85) k = (uint32_t)rng.range(13, 40);
         else if (u < 0.96) k = (uint32_t)rng.range(41, thorough ? 600 : 300);
         else k = (uint32_t)rng.range(301, thorough ? 4000 : 1500);
+        if (thorough && maxk > 20000 && rng.chance(0.012)) k = (uint32_t)rng.range(4000, 20000);     // long staircase chains, deep recursion
         return std::min(k, maxk);
     }
     uint32_t pick_E(uint32_t k, uint32_t n) {
